@@ -754,7 +754,7 @@ package exec
 // puts it back. Whatever happens — an error, or a panic of the user's combine function — every combiner this call
 // took or made has been put back or discarded when the call ends: nobody waits for it forever.
 //@ func exec.(*worker).runCombine (ctx, task, taskStats, in) (err)
-//@   requires w != nil && task != nil && in != nil && taskStats != nil && defaultChunksize != nil
+//@   requires w != nil && task != nil && in != nil
 //@   may_panic
 //@   flag trust_nil_safety
 //@   flag chan_tokens heldCombiners:*exec.combiner
